@@ -59,8 +59,13 @@ pub struct Builders;
 const VALUES: &[&str] = &[
     "-1", "0", "1", "16", "17", "18", "19", "255", "256", "32767", "32768", "-32769", "65535", "65536", "2147483648", "4294967296",
     "18446744073709551616", "1e3", "０", "", "x", "DEFAULT", "SPACE", "UNDEF", "0x10000", "0x0000", "0xFFFF..0x0001", "0x0041..0x10000",
-    "0x0041..", "*", "\"", "1 1", "a\tb", "a/b", "+1", " 1", "0x", "0x0x41", "#",
+    "0x0041..", "*", "\"", "1 1", "a\tb", "a/b", "+1", " 1", "0x", "0x0x41", "#", "0xFFFFFFFFFFFFFFFF", "0x0..0xFFFFFFFFFFFFFFFF", "0xFFFFFFFFFFFFFFFF..0x0",
+    "0x7FFFFFFFFFFFFFFF", "0x10000000000000000", "18446744073709551615", "9223372036854775807", "-9223372036854775808", "4294967295",
 ];
+// Not in the vocabulary on purpose: i32::MIN / i32::MAX as a bigram.cost value. The i32 accumulators (the raw
+// connector's sum over templates, the Viterbi path cost) are unprotected by design, as in MeCab; costs of that
+// magnitude are outside the stated domain (DESIGN §9) and would only exercise the overflow checks this harness
+// switches on for the library.
 
 const LINES: &[&str] = &[
     "", "# comment", "   ", "0x3042 DEFAULT", "0x0041..0x005A", "0x0041 # no category", "NEWCAT 1 1 2", "NEWCAT 1 1", "DEFAULT 1 0 3",
